@@ -4,9 +4,11 @@ import (
 	"bytes"
 	"encoding/json"
 	"fmt"
+	"math"
 	"math/big"
 	"regexp"
 	"sort"
+	"strconv"
 	"strings"
 	"unicode/utf8"
 )
@@ -126,6 +128,11 @@ var patternCache = map[string]*regexp.Regexp{}
 // Validator is the reference validator (OpenAPI 3.0 dialect, DESIGN.md Appendix E).
 type Validator struct {
 	C Components
+	// Float64Numbers: a number governed by a schema of type "number" is judged at the float64 value
+	// nearest to its text (what a double-based validator and a Go float64 see), not at the exact
+	// decimal; used where the text was written from a float64 (shortest round-tripping digits denote
+	// the double, not a decimal quantity: -3.009554849324023e+97 IS a multiple of 1.5 as a double).
+	Float64Numbers bool
 }
 
 // Valid reports validity and, when invalid, the first reason.
@@ -175,6 +182,11 @@ func (vd Validator) valid(s *Schema, v any, path string, depth int) (bool, strin
 		r, ok := ratOf(x)
 		if !ok {
 			return false, path + ": number out of the reference's range"
+		}
+		if vd.Float64Numbers && s.Type == "number" {
+			if f, err := strconv.ParseFloat(string(x), 64); err == nil && !math.IsInf(f, 0) {
+				r = new(big.Rat).SetFloat64(f)
+			}
 		}
 		if s.Min != "" {
 			m, _ := ratOf(json.Number(s.Min))
